@@ -11,8 +11,14 @@ CORPUS = os.path.join(L.VERIF, "corpus", "C20")
 
 # requests per family: (quick, thorough)
 BUDGET = {
-    "xilinx": (1500, 30000),
-    "ecp5": (700, 12000),
+    "xilinx": (1300, 26000),
+    "ecp5": (600, 12000),
+    "ice40": (300, 4000),
+    "nx": (300, 5000),
+    "nxosc": (100, 1000),
+    "intel": (120, 3000),
+    "gw1n": (300, 6000),
+    "gwosc": (80, 1000),
 }
 
 
